@@ -28,6 +28,9 @@ type Config struct {
 	AckMode    uint
 	Subscribe  bool
 	PreDBs     int // databases created up front (engine mode); default 1
+	// MissingAcks > 0 (engine mode): every database waits for this many follower acknowledgements that never come
+	// (as with followers that are configured but unreachable): acknowledgement-required requests end by their wait timeout
+	MissingAcks int
 }
 
 func (c Config) WithDefaults() Config {
